@@ -67,6 +67,7 @@ func checkC04(ctx *Ctx, r *Report) {
 	c04TemplateRecursion(ctx, r)
 	c20StrictHelper(ctx, r)
 	c04CueDepthBounded(ctx, r, g)
+	c04FourthHunt(ctx, r)
 }
 
 // ---------------------------------------------------------------------------
@@ -2478,4 +2479,164 @@ func c04UnfoldOnce(ctx *Ctx, r *Report) {
 	r.Count("unfolding loops over referenced unions", 1)
 	r.Check(done, "flow/unfold-once", "FlattenDisjunctions.flattenDisjunction unfolds a referenced union once", fd.Pos(), "a set of the references already unfolded is tested before the recursive call and never shrinks",
 		"flattenDisjunction only remembers the references it is in the middle of unfolding: a union reached through two branches is unfolded twice, at every level — `D0: string | integer`, `Dn: D(n-1) | D(n-1) | boolean` takes 2^n steps for three branches, and 40 definitions do not return")
+}
+
+// c04FourthHunt — fourth hunt: three ways of taking 2^n steps on an input of n lines.
+//   - checkDocumentShape follows aliases (and merge keys) before yaml.v3's own alias budget applies: what an anchor
+//     holds is checked once — the alias case consults and fills a set keyed by the anchored node before it recurses;
+//   - a function that *replaces a reference by a walk or a copy of what it designates* and only guards against cycles
+//     with an in-progress set (set on the way in, `defer delete` on the way out) does the work once per path through
+//     a DAG: openapi.walkRef and InlineObjectsWithTypes.processRef count what they inline and leave with an error
+//     beyond a constant. Decided for every method of internal/openapi and internal/ast/compiler that has such a set
+//     on its receiver.
+func c04FourthHunt(ctx *Ctx, r *Report) {
+	n := 0
+	// (a)
+	if fn := ctx.LookupFunc("internal/yaml", "checkDocumentShape"); fn == nil {
+		r.Undecided("anchor lost: yaml.checkDocumentShape")
+	} else if fd, p := ctx.DeclOf(fn); fd != nil {
+		info := p.TypesInfo
+		once := false
+		ast.Inspect(fd.Body, func(m ast.Node) bool {
+			cc, ok := m.(*ast.CaseClause)
+			if !ok {
+				return true
+			}
+			kinds := ""
+			for _, e := range cc.List {
+				kinds += exprString(e) + " "
+			}
+			if !strings.Contains(kinds, "AliasNode") {
+				return true
+			}
+			// the recursive call on node.Alias
+			var recursion token.Pos
+			ast.Inspect(cc, func(k ast.Node) bool {
+				if c, ok := k.(*ast.CallExpr); ok && callee(info, c) == fn && len(c.Args) > 0 && strings.HasSuffix(exprString(c.Args[0]), ".Alias") {
+					recursion = c.Pos()
+				}
+				return true
+			})
+			if !recursion.IsValid() {
+				return false
+			}
+			// before it: a comma-ok lookup in a map that leaves, and a store into the same map
+			var looked, stored types.Object
+			ast.Inspect(cc, func(k ast.Node) bool {
+				switch x := k.(type) {
+				case *ast.IfStmt:
+					if x.Pos() > recursion || !endsInExit(x.Body) {
+						return true
+					}
+					if as, ok := x.Init.(*ast.AssignStmt); ok && len(as.Lhs) == 2 && len(as.Rhs) == 1 {
+						if ix, ok := ast.Unparen(as.Rhs[0]).(*ast.IndexExpr); ok {
+							if id, ok := ast.Unparen(ix.X).(*ast.Ident); ok {
+								if _, isMap := info.TypeOf(ix.X).Underlying().(*types.Map); isMap {
+									looked = objOf(info, id)
+								}
+							}
+						}
+					}
+				case *ast.AssignStmt:
+					if x.Pos() > recursion || len(x.Lhs) != 1 {
+						return true
+					}
+					if ix, ok := ast.Unparen(x.Lhs[0]).(*ast.IndexExpr); ok {
+						if id, ok := ast.Unparen(ix.X).(*ast.Ident); ok {
+							stored = objOf(info, id)
+						}
+					}
+				}
+				return true
+			})
+			if looked != nil && looked == stored {
+				once = true
+			}
+			return false
+		})
+		n++
+		r.Check(once, "flow/alias-checked-once", "yaml.checkDocumentShape follows an alias", fd.Pos(), "after looking the anchored node up in a set of what was already checked, and adding it",
+			"checkDocumentShape follows every alias it meets, with no memory of what it already checked: 40 anchors each using the previous one twice (`- &l1 {<<: [*l0, *l0]}` …, 1.2 KB) cost 2^40 visits before yaml.v3, which refuses the document in a millisecond (excessive aliasing), gets to see it — PipelineFromFile never returns")
+	}
+	// (b)
+	inliners := 0
+	for _, rel := range []string{"internal/openapi", "internal/ast/compiler"} {
+		p := ctx.Pkg(rel)
+		if p == nil {
+			r.Undecided("anchor lost: %s", rel)
+			continue
+		}
+		info := p.TypesInfo
+		for _, file := range p.Syntax {
+			for _, d := range file.Decls {
+				fd, ok := d.(*ast.FuncDecl)
+				if !ok || fd.Body == nil || fd.Recv == nil || len(fd.Recv.List) != 1 || len(fd.Recv.List[0].Names) != 1 {
+					continue
+				}
+				recv := info.Defs[fd.Recv.List[0].Names[0]]
+				// an in-progress set on the receiver: `defer delete(recv.f, k)`
+				var set *types.Var
+				ast.Inspect(fd.Body, func(m ast.Node) bool {
+					ds, ok := m.(*ast.DeferStmt)
+					if !ok || len(ds.Call.Args) != 2 {
+						return true
+					}
+					if id, ok := ast.Unparen(ds.Call.Fun).(*ast.Ident); !ok || id.Name != "delete" {
+						return true
+					}
+					if sel, ok := ast.Unparen(ds.Call.Args[0]).(*ast.SelectorExpr); ok && isIdentOf(info, sel.X, recv) {
+						set = fieldOf(info, sel)
+					}
+					return true
+				})
+				if set == nil {
+					continue
+				}
+				inliners++
+				// a counter on the receiver, incremented here and compared with a constant under an error exit
+				counters := map[*types.Var]bool{}
+				ast.Inspect(fd.Body, func(m ast.Node) bool {
+					if inc, ok := m.(*ast.IncDecStmt); ok && inc.Tok == token.INC {
+						if sel, ok := ast.Unparen(inc.X).(*ast.SelectorExpr); ok && isIdentOf(info, sel.X, recv) {
+							if f := fieldOf(info, sel); f != nil {
+								counters[f] = true
+							}
+						}
+					}
+					return true
+				})
+				bounded := false
+				ast.Inspect(fd.Body, func(m ast.Node) bool {
+					is, ok := m.(*ast.IfStmt)
+					if !ok || len(is.Body.List) == 0 {
+						return true
+					}
+					rs, ok := is.Body.List[len(is.Body.List)-1].(*ast.ReturnStmt)
+					if !ok || len(rs.Results) == 0 || isNilIdent(info, rs.Results[len(rs.Results)-1]) {
+						return true
+					}
+					be, ok := ast.Unparen(is.Cond).(*ast.BinaryExpr)
+					if !ok || (be.Op != token.GTR && be.Op != token.GEQ) {
+						return true
+					}
+					sel, ok := ast.Unparen(be.X).(*ast.SelectorExpr)
+					if !ok || !counters[fieldOf(info, sel)] {
+						return true
+					}
+					if tv, ok := info.Types[be.Y]; ok && tv.Value != nil {
+						bounded = true
+					}
+					return true
+				})
+				fobj, _ := info.Defs[fd.Name].(*types.Func)
+				n++
+				r.Check(bounded, "flow/inlining-bounded", ctx.FuncName(fobj)+" guards its recursion with the in-progress set "+set.Name(), fd.Pos(), "and counts what it inlines: beyond a constant it leaves with an error",
+					ctx.FuncName(fobj)+" only guards against cycles (the set "+set.Name()+" is emptied on the way out): a reference reached through k paths at each of n levels is expanded k^n times — a valid 7 KB OpenAPI document (40 schemas whose nested object refers twice to the next one's) or 42 lines of CUE with PHP among the outputs never return")
+			}
+		}
+	}
+	r.Count("methods guarding a recursion with an in-progress set on their receiver (front-ends, passes)", inliners)
+	r.Floor("methods guarding a recursion with an in-progress set on their receiver (front-ends, passes)", 2)
+	r.Count("hunted clauses of termination (4th hunt)", n)
+	r.Floor("hunted clauses of termination (4th hunt)", 3)
 }
